@@ -869,19 +869,9 @@ def origin_inventory(repo):
     return sorted(sites)
 
 
-# ---- former known finding richdata-stale-xy (repaired).  The witness is kept only so that the shared KNOWN_FINDINGS.txt line
-# still resolves until the integrator turns it into `fixed:`; NOTHING is filtered any more: the history "read x, replace .data
-# by another shape, read x / y / slices()" is an ordinary checked case, so a regression is a VIOLATION.
-def _stale_witness():
-    C.import_prysm()
-    c = {'shape': [4, 7], 'shape2': [6, 9], 'dx': 0.5, 'history': 'replace_other_after_read'}
-    try:
-        return _p_rich_xy(c) is not None
-    except Exception:
-        return True
+# ---- former known finding richdata-stale-xy: repaired in /repo (see KNOWN_FINDINGS.txt `fixed:`); nothing is filtered: the history
+# "read x, replace .data by another shape, read x / y / slices()" is an ordinary checked case, so a regression is a VIOLATION.
 
-
-KNOWN = {'richdata-stale-xy': {'witness': _stale_witness}}
 
 
 # =================================================================================================
